@@ -2,6 +2,7 @@ package main
 
 import (
 	"fmt"
+	"math"
 	"math/rand"
 	"strings"
 
@@ -44,6 +45,7 @@ func engineFuzzy(ctx *Ctx) {
 			g := ctx.G(d)
 			if g%3 == 1 {
 				sp.Platforms = 1 // entries with platform tags, searched under platform requests (see c07Phase)
+				sp.TieHeavy = true // ... among them copies of one text declared for different platforms
 			}
 			if g%10 == 7 { // sizes of real deployments, just above powers of two in most cases
 				sp.N = []int{512, 1024, 2048, 2048, 4096}[r.Intn(5)] + 1 + r.Intn(7)
@@ -51,6 +53,9 @@ func engineFuzzy(ctx *Ctx) {
 			}
 			cmds0 := vlib.GenCommands(r, sp)
 			markers = c07PlantMarkers(r, cmds0)
+			if len(markers) > 5 {
+				ctx.R.Path("databases-with-same-text-pairs-of-different-eligibility", 1)
+			}
 			if !ctx.R.Guard("C07", "LoadDatabase", dbName, func() { db = vlib.MustLoad(cmds0) }) {
 				continue
 			}
@@ -92,6 +97,29 @@ func c07PlantMarkers(r *rand.Rand, cmds []vlib.Cmd) []string {
 		return nil
 	}
 	var out []string
+	mark := func() string {
+		b := make([]byte, 9)
+		for k := range b {
+			b[k] = "zqxjkvw"[r.Intn(7)]
+		}
+		return string(b)
+	}
+	// pairs of entries with the same command and description that are declared for different platforms (or differ in the
+	// pipeline flag) get the same marker: the texts stay identical, only one of the two may be eligible for a request
+	pairs := 0
+	for i := 0; i < n && pairs < 3; i++ {
+		for j := i + 1; j < n && j < i+6; j++ {
+			if cmds[i].Command == cmds[j].Command && cmds[i].Description == cmds[j].Description &&
+				(strings.Join(cmds[i].Platform, ",") != strings.Join(cmds[j].Platform, ",")) {
+				m := mark()
+				cmds[i].Description += " " + m
+				cmds[j].Description += " " + m
+				out = append(out, m)
+				pairs++
+				break
+			}
+		}
+	}
 	for _, i := range []int{0, n / 2, n - 3, n - 2, n - 1} {
 		b := make([]byte, 9)
 		for k := range b {
@@ -156,7 +184,7 @@ func c07Phase(ctx *Ctx, r *rand.Rand, db *database.Database, dbName, phase strin
 		if q == "" {
 			continue
 		}
-		thr := []int{0, 0, 0, -30, -5, 1, 40}[r.Intn(7)]
+		thr := []int{0, 0, 0, -30, -5, 1, 40, 0, 0, math.MaxInt64, math.MaxInt64 - 50, math.MaxInt64 - 99, math.MaxInt32, 1 << 40, math.MinInt64}[r.Intn(15)]
 		if marker {
 			thr = 0
 		}
